@@ -35,7 +35,7 @@ pub mod kinds {
         ZIPREFREFNEW = 31, ZIPOWNEDREF = 32, ZIPREFOWNED = 33, FOLDDROP = 34, ARRCLONE = 35, FLATTEN = 36, UNFLATTEN = 37, TONATIVE = 38, FROMNATIVE = 39,
         TOTUPLE = 40, FROMTUPLE = 41, ARRTOVEC = 42, VECTOARR = 43, ARRTOBSLICE = 44, BSLICETOARR = 45, BOXNEW = 46, UNBOX = 47, BOXINTOVEC = 48,
         BOXINTOBSLICE = 49, VECTOBOX = 50, BSLICETOBOX = 51, BOXINTOITER = 52, VINEXT = 53, VINEXTBACK = 54, BOXMAPREPLACE = 55, BOXZIPKEEPLEFT = 56,
-        BOXFOLDDROP = 57, BOXCLONE = 58, VECTOVI = 59,
+        BOXFOLDDROP = 57, BOXCLONE = 58, VECTOVI = 59, ITERTRYCOLLECT = 60, ITERTRYCOLLECTBOX = 61, VITRYCOLLECT = 62,
     }
 }
 use kinds::*;
@@ -212,6 +212,13 @@ fn enabled(pool: &[M], caps: Caps) -> Vec<Op> {
                 v.push(op1(ITERCOLLECTARR, i, 0, 0));
                 v.push(op1(ITERCOLLECTVEC, i, 0, 0));
                 v.push(op1(ITERCOLLECTBOX, i, 0, 0));
+                // fallible collection through an adaptor with an inexact size hint: right length and both neighbours
+                for t in [len.wrapping_sub(1), len, len + 1] {
+                    if t <= caps.lmax {
+                        v.push(op1(ITERTRYCOLLECT, i, t, 0));
+                        v.push(op1(ITERTRYCOLLECTBOX, i, t, 0));
+                    }
+                }
             }
             BOX => {
                 let n = c.n;
@@ -261,6 +268,11 @@ fn enabled(pool: &[M], caps: Caps) -> Vec<Op> {
                 if room_c(1) || len == 0 {
                     v.push(op1(VINEXT, i, 0, 0));
                     v.push(op1(VINEXTBACK, i, 0, 0));
+                }
+                for t in [len.wrapping_sub(1), len, len + 1] {
+                    if t <= caps.lmax {
+                        v.push(op1(VITRYCOLLECT, i, t, 0));
+                    }
                 }
             }
             _ => {}
@@ -347,6 +359,23 @@ fn apply_model(op: Op, mut t: Vec<M>) -> Vec<M> {
             vec![M::new(BOX, it.ids.len(), it.ids)]
         }
         ITERCOLLECTVEC => vec![M::new(VEC, 0, a.unwrap().ids)],
+        // exact length required: otherwise everything pulled, and what is left in the source, is dropped
+        ITERTRYCOLLECT | VITRYCOLLECT => {
+            let it = a.unwrap();
+            if it.ids.len() == p {
+                vec![M::new(ARR, p, it.ids)]
+            } else {
+                vec![]
+            }
+        }
+        ITERTRYCOLLECTBOX => {
+            let it = a.unwrap();
+            if it.ids.len() == p {
+                vec![M::new(BOX, p, it.ids)]
+            } else {
+                vec![]
+            }
+        }
         APPEND => {
             let mut a = a.unwrap();
             a.ids.push(b.take().unwrap().ids[0]);
